@@ -527,7 +527,19 @@ func TestCheck(t *testing.T) {
 			for i := lo; i < hi; i++ {
 				lit := lits[i]
 				rat, okRat := new(big.Rat).SetString(lit)
-				for _, u := range unitTexts {
+				units := append([]string{}, unitTexts...)
+				for _, bu := range append(append([]string{}, badUnits...), "0kB", "7", " B", "1", "00", "_kB", "1kB", "0") {
+					printable := true
+					for k := 0; k < len(bu); k++ {
+						if bu[k] < 0x20 || bu[k] > 0x7e || bu[k] == '"' || bu[k] == '\\' {
+							printable = false
+						}
+					}
+					if printable && (i%4 == 0 || len(bu) <= 3) { // unknown units (as they are, no escaping needed) for a quarter of the literals
+						units = append(units, bu)
+					}
+				}
+				for _, u := range units {
 					doc := `{"value":` + lit + `,"unit":"` + u + `"}`
 					c := Case{Kind: "text", Text: vkit.B(doc), Rule: int(size.RuleEnableJSONObjectForm)}
 					got, err := size.DefaultParser(doc, size.RuleEnableJSONObjectForm)
